@@ -165,16 +165,15 @@ structure Inv (s : Sched) : Prop where
   tbl : ∀ n i, s.table n = some i → i < s.nobjs ∧ (s.objs i).name = n ∧ (s.objs i).kill = false
   live : ∀ i, i < s.nobjs → (s.objs i).kill = false → s.table (s.objs i).name = some i
   logid : ∀ f ∈ s.log, f.id < s.nobjs
-  logt : ∀ f ∈ s.log, f.exp - f.exp % s.tick ≤ f.time ∧ f.time ≤ s.now ∧
+  logt : ∀ f ∈ s.log, f.exp ≤ f.time ∧ f.time ≤ s.now ∧
     ((s.objs f.id).cron = none →
       ∃ k, f.exp = (s.objs f.id).base + (s.objs f.id).after + k * (s.objs f.id).interval)
   stop : s.stopped = true → ∀ i, i < s.nobjs → (s.objs i).kill = false → ∀ e, (s.objs i).timer ≠ .inflight e
-  infl : ∀ i e, i < s.nobjs → (s.objs i).timer = .inflight e → e - e % s.tick ≤ s.now
   clamped : ∀ i, i < s.nobjs → (s.objs i).cron = none → s.tick ≤ (s.objs i).after ∧ s.tick ≤ (s.objs i).interval
   closed_empty : s.stopped = true → ∀ n, s.table n = none
 
 theorem Inv_init (tick : Nat) (h : 0 < tick) : Inv (init tick) := by
-  refine ⟨h, ?_, ?_, ?_, ?_, ?_, ?_, ?_, ?_, ?_⟩ <;> simp [init]
+  refine ⟨h, ?_, ?_, ?_, ?_, ?_, ?_, ?_, ?_⟩ <;> simp [init]
 
 theorem fired_same_log (s s' : Sched) (h : s'.log = s.log) (i : Nat) : fired s' i = fired s i := by
   simp [fired, h]
@@ -185,7 +184,7 @@ theorem Inv_unregister (s : Sched) (n : Nat) (h : Inv s) : Inv (unregister s n) 
   · rename_i i hi
     obtain ⟨hlt, hname, hkill⟩ := h.tbl n i hi
     have hcf := Task.close_fields (s.objs i)
-    refine ⟨h.tick_pos, ?_, ?_, ?_, h.logid, ?_, ?_, ?_, ?_, ?_⟩
+    refine ⟨h.tick_pos, ?_, ?_, ?_, h.logid, ?_, ?_, ?_, ?_⟩
     · intro j hj
       show TaskOKp (upd s.objs i (s.objs i).close j) (fired s j)
       by_cases hji : j = i
@@ -222,12 +221,6 @@ theorem Inv_unregister (s : Sched) (n : Nat) (h : Inv s) : Inv (unregister s n) 
       by_cases hji : j = i
       · subst hji; rw [upd_same, Task.close_kill] at hk; cases hk
       · rw [upd_other _ _ _ _ hji] at hk ⊢; exact h.stop hs j hj hk e
-    · intro j e hj ht
-      simp only at hj ht ⊢
-      by_cases hji : j = i
-      · subst hji; rw [upd_same] at ht
-        exact h.infl j e hj (Task.close_inflight _ _ ht)
-      · rw [upd_other _ _ _ _ hji] at ht; exact h.infl j e hj ht
     · intro j hj hc
       simp only at hj hc ⊢
       by_cases hji : j = i
@@ -268,7 +261,7 @@ theorem Inv_addTask (s1 : Sched) (n : Nat) (t' : Task) (h1 : Inv s1) (ftab : s1.
     (hlive : s1.stopped = false) :
     Inv (addTask s1 n t') := by
   unfold addTask
-  refine ⟨h1.tick_pos, ?_, ?_, ?_, ?_, ?_, ?_, ?_, ?_, ?_⟩
+  refine ⟨h1.tick_pos, ?_, ?_, ?_, ?_, ?_, ?_, ?_, ?_⟩
   · intro j hj
     have : fired { s1 with objs := upd s1.objs s1.nobjs t', nobjs := s1.nobjs + 1, table := upd s1.table n (some s1.nobjs) } j = fired s1 j := rfl
     rw [this]
@@ -305,11 +298,6 @@ theorem Inv_addTask (s1 : Sched) (n : Nat) (t' : Task) (h1 : Inv s1) (ftab : s1.
     by_cases hjn : j = s1.nobjs
     · subst hjn; rw [upd_same]; exact hnin e
     · rw [upd_other _ _ _ _ hjn] at hk ⊢; exact h1.stop hs j (by omega) hk e
-  · intro j e hj hin
-    simp only at hj hin ⊢
-    by_cases hjn : j = s1.nobjs
-    · subst hjn; rw [upd_same] at hin; exact absurd hin (hnin e)
-    · rw [upd_other _ _ _ _ hjn] at hin; exact h1.infl j e (by omega) hin
   · intro j hj hc
     simp only at hj hc ⊢
     by_cases hjn : j = s1.nobjs
@@ -363,7 +351,7 @@ theorem clear_all_killed (s : Sched) (h : Inv s) (j : Nat) (hj : j < s.nobjs) :
 
 theorem Inv_clear (s : Sched) (h : Inv s) : Inv (clear s) := by
   have hk := clear_all_killed s h
-  refine ⟨h.tick_pos, ?_, ?_, ?_, h.logid, ?_, ?_, ?_, ?_, fun _ _ => rfl⟩
+  refine ⟨h.tick_pos, ?_, ?_, ?_, h.logid, ?_, ?_, ?_, fun _ _ => rfl⟩
   · intro j hj
     have : fired (clear s) j = fired s j := rfl
     rw [this]
@@ -382,13 +370,6 @@ theorem Inv_clear (s : Sched) (h : Inv s) : Inv (clear s) := by
       rw [hcf.2.2.2.2.1, hcf.2.2.2.2.2.1, hcf.2.1, hcf.2.2.1]; exact c
     · exact c
   · intro _ j hj hkj; rw [hk j hj] at hkj; cases hkj
-  · intro j e hj hin
-    have : (s.objs j).timer = .inflight e := by
-      unfold clear at hin; simp only at hin
-      split at hin
-      · exact Task.close_inflight _ _ hin
-      · exact hin
-    exact h.infl j e hj this
   · intro j hj hc
     unfold clear at hc ⊢; simp only at hj hc ⊢
     split at hc
@@ -404,13 +385,12 @@ theorem Inv_close (s : Sched) (h : Inv s) : Inv (close s).1 := by
   split
   · exact hc
   · exact ⟨hc.tick_pos, hc.ok, hc.tbl, hc.live, hc.logid, hc.logt,
-      fun _ j hj hkj => (by rw [hk j hj] at hkj; cases hkj), hc.infl, hc.clamped, fun _ _ => rfl⟩
+      fun _ j hj hkj => (by rw [hk j hj] at hkj; cases hkj), hc.clamped, fun _ _ => rfl⟩
 
 theorem Inv_advance (s : Sched) (dt : Nat) (h : Inv s) : Inv (advance s dt) := by
   unfold advance
-  refine ⟨h.tick_pos, h.ok, h.tbl, h.live, h.logid, ?_, h.stop, ?_, h.clamped, h.closed_empty⟩
+  refine ⟨h.tick_pos, h.ok, h.tbl, h.live, h.logid, ?_, h.stop, h.clamped, h.closed_empty⟩
   · intro f hf; obtain ⟨a, b, c⟩ := h.logt f hf; exact ⟨a, by simp only; omega, c⟩
-  · intro j e hj hin; have := h.infl j e hj hin; simp only; omega
 
 theorem Inv_expire (s : Sched) (i : Nat) (h : Inv s) : Inv (expire s i) := by
   unfold expire
@@ -420,10 +400,9 @@ theorem Inv_expire (s : Sched) (i : Nat) (h : Inv s) : Inv (expire s i) := by
     split
     · rename_i e hp
       split
-      · rename_i hd
-        obtain ⟨hi, hdue⟩ := hd
+      · rename_i hi
         simp only
-        refine ⟨h.tick_pos, ?_, ?_, ?_, h.logid, ?_, ?_, ?_, ?_, h.closed_empty⟩
+        refine ⟨h.tick_pos, ?_, ?_, ?_, h.logid, ?_, ?_, ?_, h.closed_empty⟩
         · intro j hj
           have : fired { s with objs := upd s.objs i { s.objs i with timer := .inflight e } } j = fired s j := rfl
           rw [this]; simp only
@@ -456,12 +435,6 @@ theorem Inv_expire (s : Sched) (i : Nat) (h : Inv s) : Inv (expire s i) := by
           · rw [hji, upd_same]; rw [hji] at c; exact c
           · rw [upd_other _ _ _ _ hji]; exact c
         · intro hs; simp only at hs; rw [hs] at hns; exact absurd rfl hns
-        · intro j e' hj hin
-          simp only at hj hin ⊢
-          by_cases hji : j = i
-          · subst hji; rw [upd_same] at hin; simp only at hin; cases hin
-            simpa [due] using hdue
-          · rw [upd_other _ _ _ _ hji] at hin; exact h.infl j e' hj hin
         · intro j hj hc
           simp only at hj hc ⊢
           by_cases hji : j = i
@@ -508,7 +481,8 @@ theorem Task.fire_timer (t : Task) (e : Nat) : (∃ e', (t.fire e).timer = .pend
   · left; exact ⟨_, rfl⟩
   · right; rfl
 
-theorem Inv_fired (s : Sched) (i e : Nat) (h : Inv s) (hi : i < s.nobjs) (hin : (s.objs i).timer = .inflight e) :
+theorem Inv_fired (s : Sched) (i e : Nat) (h : Inv s) (hi : i < s.nobjs) (hin : (s.objs i).timer = .inflight e)
+    (hle : e ≤ s.now) :
     Inv (if (s.objs i).kill then fireAt s i e else logged (fireAt s i e) i e) := by
   have hff := Task.fire_fields (s.objs i) e
   have htm := Task.fire_timer (s.objs i) e
@@ -537,13 +511,7 @@ theorem Inv_fired (s : Sched) (i e : Nat) (h : Inv s) (hi : i < s.nobjs) (hin : 
     by_cases hji : j = i
     · subst hji; rw [upd_same]; exact hnin e'
     · rw [upd_other _ _ _ _ hji] at hk ⊢; exact h.stop hs j hj hk e'
-  have hinfl : ∀ j e', j < s.nobjs → ((fireAt s i e).objs j).timer = .inflight e' → e' - e' % s.tick ≤ s.now := by
-    intro j e' hj hh
-    unfold fireAt at hh; simp only at hh
-    by_cases hji : j = i
-    · subst hji; rw [upd_same] at hh; exact absurd hh (hnin e')
-    · rw [upd_other _ _ _ _ hji] at hh; exact h.infl j e' hj hh
-  have hlogt : ∀ f ∈ s.log, f.exp - f.exp % s.tick ≤ f.time ∧ f.time ≤ s.now ∧
+  have hlogt : ∀ f ∈ s.log, f.exp ≤ f.time ∧ f.time ≤ s.now ∧
       (((fireAt s i e).objs f.id).cron = none → ∃ k, f.exp = ((fireAt s i e).objs f.id).base +
         ((fireAt s i e).objs f.id).after + k * ((fireAt s i e).objs f.id).interval) := by
     intro f hf
@@ -572,7 +540,7 @@ theorem Inv_fired (s : Sched) (i e : Nat) (h : Inv s) (hi : i < s.nobjs) (hin : 
   cases hk : (s.objs i).kill
   · -- live: one callback
     simp only [hk, Bool.false_eq_true, if_false] at hoki ⊢
-    refine ⟨h.tick_pos, ?_, htbl, hlive, ?_, ?_, hstop, hinfl, hclamp, h.closed_empty⟩
+    refine ⟨h.tick_pos, ?_, htbl, hlive, ?_, ?_, hstop, hclamp, h.closed_empty⟩
     · intro j hj
       rw [fired_logged]
       have : fired (fireAt s i e) j = fired s j := rfl
@@ -588,7 +556,7 @@ theorem Inv_fired (s : Sched) (i e : Nat) (h : Inv s) (hi : i < s.nobjs) (hin : 
     · intro f hf
       simp only [logged, List.mem_cons] at hf
       rcases hf with rfl | hf
-      · refine ⟨h.infl i e hi hin, Nat.le_refl _, ?_⟩
+      · refine ⟨hle, Nat.le_refl _, ?_⟩
         intro hc
         simp only [logged, fireAt, upd_same] at hc ⊢
         rw [hff.2.2.2.2.1] at hc
@@ -600,7 +568,7 @@ theorem Inv_fired (s : Sched) (i e : Nat) (h : Inv s) (hi : i < s.nobjs) (hin : 
         · rw [hin] at hidle; cases hidle
       · exact hlogt f hf
   · simp only [hk, if_true] at hoki ⊢
-    refine ⟨h.tick_pos, ?_, htbl, hlive, h.logid, hlogt, hstop, hinfl, hclamp, h.closed_empty⟩
+    refine ⟨h.tick_pos, ?_, htbl, hlive, h.logid, hlogt, hstop, hclamp, h.closed_empty⟩
     intro j hj
     have : fired (fireAt s i e) j = fired s j := rfl
     rw [this]
@@ -624,8 +592,9 @@ theorem Inv_runTimer (s : Sched) (i : Nat) (h : Inv s) : Inv (runTimer s i) := b
   split
   · rename_i e hin
     split
-    · rename_i hi
-      have hf := Inv_fired s i e h hi hin
+    · rename_i hc
+      obtain ⟨hi, hle⟩ := hc
+      have hf := Inv_fired s i e h hi hin hle
       rw [timerTask_eq]
       cases hk : (s.objs i).kill
       · simp only [hk, Bool.false_eq_true, if_false] at hf ⊢
